@@ -93,7 +93,7 @@ FIELDS3 = ("A", "B", "C")
 
 
 INFER_SHAPES = ([dict(kind="setup_noin", nparams=n) for n in (0, 1, 2)] + [dict(kind="setup_in", nparams=n) for n in (0, 1, 2)]
-                + [dict(kind=k, nparams=0) for k in ("if_result", "for_result", "for_blockarg", "other_blockarg")])
+                + [dict(kind=k, nparams=0) for k in ("if_result", "for_result", "for_result_const", "for_blockarg", "other_blockarg")])
 
 
 @contract
@@ -121,11 +121,19 @@ class infer_state_of_contract:
             op = scf.IfOp(mk_ident_value(51), [None, None], Region([Block([scf.YieldOp(other, ty)])]), Region([Block([scf.YieldOp(other, ey)])]))
             G["case"] = dict(ty=ty, ey=ey)
             return [op.results[1]]
-        if kind in ("for_result", "for_blockarg"):
+        if kind in ("for_result", "for_result_const", "for_blockarg"):
             init, yv = with_state(sym, "init"), with_state(sym, "yield")
             other = mk_ident_value(50)
             blk = Block(arg_types=[IndexType(), None, None])
             blk.add_op(scf.YieldOp(other, yv))
+            if kind == "for_result_const":
+                # compile-time constant bounds (an implementation may use them to rule out the zero-trip case)
+                from xdsl.dialects import arith as _arith
+                LB, UB, ST = sym.int("LB"), sym.int("UB"), sym.int("ST", 1)
+                bounds = [_arith.ConstantOp.from_int_and_width(x, IndexType()).results[0] for x in (LB, UB, ST)]
+                op = scf.ForOp(bounds[0], bounds[1], bounds[2], [other, init], Region([blk]))
+                G["case"] = dict(init=init, yv=yv, LB=LB, UB=UB)
+                return [op.results[1]]
             op = scf.ForOp(mk_ident_value(52), mk_ident_value(53), mk_ident_value(54), [other, init], Region([blk]))
             G["case"] = dict(init=init, yv=yv)
             return [op.results[1] if kind == "for_result" else blk.args[2]]
@@ -157,6 +165,10 @@ class infer_state_of_contract:
         elif kind == "for_result":
             check("loop result: holds when the loop ran (state yielded by the last iteration)", submap(ret, INFER(c["yv"])))
             check("loop result: holds when the loop ran zero times (the initial state)", submap(ret, INFER(c["init"])))
+        elif kind == "for_result_const":
+            check("loop result (constant bounds): holds when the loop ran (state yielded by the last iteration)", implies(c["LB"] < c["UB"], submap(ret, INFER(c["yv"]))))
+            check("loop result (constant bounds): holds when the loop ran zero times, i.e. whenever NOT lb < ub (the initial state)",
+                  implies(not (c["LB"] < c["UB"]), submap(ret, INFER(c["init"]))))
         elif kind == "for_blockarg":
             check("loop head: holds on the first iteration (the initial state)", submap(ret, INFER(c["init"])))
             check("loop head: holds on every later iteration (the state yielded by the previous one)", submap(ret, INFER(c["yv"])))
@@ -617,6 +629,23 @@ def weave_rec(local):
     """the function's own contract for recursive calls: the result is SOME state that is a sub-map of the ghost truth at
     the exit of that container (fixed in args); the container's ops are not touched"""
     c = local["container"]
+    passed = local["state"]
+    # call-site preconditions of the recursive call
+    if isinstance(c, RegionOpView):
+        # the regions of an unknown op may run any number of times, later runs start from whatever the previous run left
+        check("the nested weave of an op whose regions may run repeatedly starts without any assumed state", len(passed) == 0)
+    elif W.get("for_op") is not None and c is W["for_op"].body:
+        # a loop body: a loop-carried block argument stands for "the state at the head of THIS iteration"; any other
+        # value is only right at the head of every iteration if nothing in the body can change that accelerator
+        f = W["for_op"]
+        for a in passed:
+            is_arg = any(passed[a] is x for x in f.body.block.args)
+            check(f"loop body: the state assumed for '{a}' at the head of the body is a loop-carried argument, or the body cannot change it",
+                  is_arg or (not f.fx and a not in f.nested))
+    else:
+        T = W.get("T", {})
+        check("the state handed to a branch of an scf.if is (a part of) the true state in front of the if",
+              all(a in T and passed[a] is T[a] for a in passed))
     for cont, st in W["rec"]:
         if cont is c:
             return dict(st)
@@ -647,7 +676,8 @@ class RegionOpView(Operation):
             self.regions = [r]
 
 
-WEAVE_SHAPES = ([dict(kind="setup", has_in=h) for h in (False, True)] + [dict(kind="if"), dict(kind="region_op"), dict(kind="effect"), dict(kind="plain")])
+WEAVE_SHAPES = ([dict(kind="setup", has_in=h) for h in (False, True)] + [dict(kind="if"), dict(kind="region_op"), dict(kind="effect"), dict(kind="plain")]
+                + [dict(kind="for", pre=p) for p in ("none", "existing_arg")])
 
 
 @contract
@@ -661,12 +691,21 @@ class weave_states_transfer_contract:
                "snaxc.inference.helpers.has_accfg_effects": effects_flag,
                "snaxc.inference.helpers.find_all_acc_names_in_region": nested_accs}
 
+    def requires(sh, a):
+        if sh["kind"] != "for":
+            return True
+        op, Sb = a[2], a[5]["Sb"]
+        # without effects in the body, every accelerator the body sets up has a woven state at its end
+        return op.fx or all(x in Sb for x in op.nested)
+
     def args(sh, sym):
         W["rec"] = []
+        W["for_op"] = None
         # the conditions are pointwise in the accelerator: the if case is explored for one accelerator
         W["accs"] = ("acc",) if sh["kind"] == "if" else ACCS
         ACCS_ = W["accs"]
         T = mk_acc_state(sym, "T", 0)          # truth before the op
+        W["T"] = T
         S = {}
         for a in ACCS_:                         # the woven state: any sub-map of the truth
             if a in T and sym.bool(f"S_has_{a}"):
@@ -693,6 +732,23 @@ class weave_states_transfer_contract:
             op = RegionOpView(sym.bool("fx"), [a for a in ACCS if sym.bool(f"nested_{a}")], True)
         elif kind == "effect":
             op = RegionOpView(True, [], False)
+        elif kind == "for":
+            # scf.for with ghost flags: fx = something in the body has accfg effects, nested = accelerators set up in the body
+            blk = Block(arg_types=[IndexType()] + ([accfg.StateType("acc")] if sh["pre"] == "existing_arg" else []))
+            blk.add_op(scf.YieldOp(*([blk.args[1]] if sh["pre"] == "existing_arg" else [])))
+            init = [T["acc"]] if sh["pre"] == "existing_arg" and "acc" in T else ([mk_ident_value(77, accfg.StateType("acc"))] if sh["pre"] == "existing_arg" else [])
+            op = scf.ForOp(mk_ident_value(52), mk_ident_value(53), mk_ident_value(54), init, Region([blk]))
+            op.fx = sym.bool("fx")
+            op.nested = [a for a in ACCS if sym.bool(f"nested_{a}")]
+            # the woven state at the END of the body (what the recursive call returns): any map; without effects every
+            # accelerator set up in the body has a state there
+            Sb = {}
+            for a in ACCS:
+                if sym.bool(f"Sb_has_{a}"):
+                    Sb[a] = mk_ident_value(sym.int(f"Sb_{a}", 20, 22), accfg.StateType(a))
+            W["rec"] = [(op.body, Sb)]
+            W["for_op"] = op
+            extra = dict(Sb=Sb)
         else:
             op = RegionOpView(False, [], False)
         return [Region([Block([op])]), dict(S), op, T, dict(S), extra]
@@ -744,6 +800,18 @@ class weave_states_transfer_contract:
                           not op.fx and acc_name not in op.nested and acc_name in T and out[acc_name] == T[acc_name])
         elif kind == "effect":
             check("after an op that may reconfigure the accelerators nothing is assumed", len(out) == 0)
+        elif kind == "for":
+            for acc_name in ACCS:
+                if acc_name in out:
+                    v = out[acc_name]
+                    is_result = any(v is r for r in op.results)
+                    if acc_name in op.nested:
+                        check(f"after the loop, '{acc_name}' (set up in the body) is assumed through a loop result only", is_result)
+                    else:
+                        # (a loop that already carries this accelerator's state keeps doing so: its result is handled by the
+                        # loop-result condition of infer_state_of)
+                        check(f"after the loop, '{acc_name}' (not set up in the body) keeps its state only if nothing in the body can change it",
+                              is_result or (not op.fx and acc_name in T and v == T[acc_name]))
         else:
             check("an op without effects leaves the state as it was", submap(out, T) and len(out) == len(S_in))
 
